@@ -114,17 +114,6 @@ theorem C19_no_info_after_logout (cfg : Cfg) (st : St) (ops : List Op) (s : Subj
   have hn := (Dict.not_mem_keys_iff _ _).mp (absent_exec (cfg := cfg) ops st h hops)
   refine ⟨by simp [cacheGet, hn], by simp [getIdentity, hn], by simp [isLoggedIn, getIdentity, hn]⟩
 
-/-- State in which `handle_logout_response` re-enters `do_logout`: the answered record is gone, the
-    issuer is taken off the shared list object. -/
-private def reentry (st : St) (rid : ReqId) (rec : Rec) (x : Idp) : St :=
-  { st with pending := Dict.del rid st.pending, heap := Dict.set rec.cell ((heapGet st.heap rec.cell).erase x) st.heap }
-
-private theorem cont_eq {cfg : Cfg} {st : St} {rid : ReqId} {rec : Rec} {x : Idp}
-    (hrec : Dict.get? rid st.pending = some rec) (hL : heapGet st.heap rec.cell ≠ [x])
-    (hx : x ∈ heapGet st.heap rec.cell) :
-    handleResponse cfg st (some rid) x = doLogout cfg (reentry st rid rec x) rec.subj rec.cell rec.expire :=
-  handleResponse_cont hrec hL hx
-
 /-! ### logout requests name the subject -/
 
 /-- Every LogoutRequest that `global_logout(s)` emits names `s`, goes to an identity provider that
